@@ -5,6 +5,7 @@ package c10
 
 import (
 	"bytes"
+	"encoding/binary"
 	"encoding/json"
 	"fmt"
 	"net"
@@ -13,6 +14,7 @@ import (
 	"strings"
 	"testing"
 
+	cebpf "github.com/cilium/ebpf"
 	"github.com/codelaboratoryltd/bng/pkg/nat"
 	"go.uber.org/zap"
 
@@ -27,6 +29,7 @@ type cfg struct {
 	publics         int
 	subs            int
 	bulk            bool
+	mapCap          int // >0: a real kernel subscriber_nat map with this capacity (a later write fails with E2BIG: fault injection)
 }
 
 type block struct {
@@ -35,6 +38,7 @@ type block struct {
 }
 
 type sys struct {
+	kmap             *cebpf.Map
 	c                cfg
 	m                *nat.Manager
 	lg               *nat.Logger
@@ -63,7 +67,16 @@ func newSys(c cfg) *sys {
 			panic(err)
 		}
 	}
-	return &sys{c: c, m: m, lg: lg, buf: buf, ref: map[int]block{}}
+	st := &sys{c: c, m: m, lg: lg, buf: buf, ref: map[int]block{}}
+	if c.mapCap > 0 {
+		// the value size is what the control plane marshals (checked against the C declaration by C06)
+		km, err := cebpf.NewMap(&cebpf.MapSpec{Type: cebpf.Hash, KeySize: 4, ValueSize: uint32(binary.Size(nat.SubscriberNAT{})), MaxEntries: uint32(c.mapCap)})
+		if err == nil {
+			st.kmap = km
+			m.VerifSetMaps(map[string]*cebpf.Map{"subscriber_nat": km})
+		}
+	}
+	return st
 }
 
 func (s *sys) Ops() []string {
@@ -161,6 +174,27 @@ func (s *sys) Check() []explore.Viol {
 			}
 		}
 	}
+	if s.kmap != nil {
+		defer s.kmap.Close()
+		// the kernel map holds exactly the live allocations
+		n := 0
+		it := s.kmap.Iterate()
+		var k uint32
+		var v []byte
+		for it.Next(&k, &v) {
+			n++
+		}
+		if n != len(s.ref) {
+			s.v("kernel-map", "subscriber_nat", "kernel map holds %d entries, %d allocations are live", n, len(s.ref))
+		}
+	}
+	subsTotal := 0
+	for _, pe := range s.m.GetPoolStats() {
+		subsTotal += pe.Subscribers
+	}
+	if subsTotal != len(s.ref) {
+		s.v("count", "GetPoolStats", "pool entries count %d subscribers, %d allocations are live", subsTotal, len(s.ref))
+	}
 	if n := s.m.GetAllocationCount(); n != len(s.ref) {
 		s.v("count", "GetAllocationCount", "manager reports %d allocations, reference has %d", n, len(s.ref))
 	}
@@ -239,13 +273,18 @@ func configs(thorough bool) []cfg {
 	var out []cfg
 	for _, bulk := range []bool{true, false} {
 		out = append(out,
-			cfg{"std-1ip", 1024, 65535, 1024, 1, subs, bulk},
-			cfg{"nondividing-1ip", 1000, 1009, 3, 1, subs, bulk},
-			cfg{"nondividing-2ip", 1000, 1009, 3, 2, subs, bulk},
-			cfg{"edge65535-2ip", 65530, 65535, 2, 2, subs, bulk},
-			cfg{"singleblock-3ip", 1024, 1031, 8, 3, subs, bulk},
+			cfg{"std-1ip", 1024, 65535, 1024, 1, subs, bulk, 0},
+			cfg{"nondividing-1ip", 1000, 1009, 3, 1, subs, bulk, 0},
+			cfg{"nondividing-2ip", 1000, 1009, 3, 2, subs, bulk, 0},
+			cfg{"edge65535-2ip", 65530, 65535, 2, 2, subs, bulk, 0},
+			cfg{"singleblock-3ip", 1024, 1031, 8, 3, subs, bulk, 0},
 		)
 	}
+	// fault dimension: the kernel map is full after 1 / 2 entries, so a later AllocateNAT fails at its map write
+	out = append(out,
+		cfg{"nondividing-2ip kernel-map-cap1", 1000, 1009, 3, 2, subs, true, 1},
+		cfg{"nondividing-1ip kernel-map-cap2", 1000, 1009, 3, 1, subs, false, 2},
+	)
 	return out
 }
 
